@@ -1880,9 +1880,23 @@ pub fn field_specs() -> Vec<FieldSpec> {
                     kind: AmtKind::Any,
                 },
                 G::Join(vec![code(&["S", "N", "F"]), fix(C, 3)]),
-                G::RefNoDslash { max: 16 },
-                opt(seq(vec![lit("//"), G::RefNoDslash { max: 16 }])),
-                opt(seq(vec![G::Nl, G::RefNoDslash { max: 34 }])),
+                // strict: the supplementary details on a line of their own. The format string the library
+                // documents has no line break before [34x], and its parser says so too ("no `//` and no
+                // second line: text beyond 16 characters is taken as supplementary details"): that
+                // reading is permitted, not demanded
+                alt(vec![
+                    seq(vec![
+                        G::RefNoDslash { max: 16 },
+                        opt(seq(vec![lit("//"), G::RefNoDslash { max: 16 }])),
+                        opt(seq(vec![G::Nl, G::RefNoDslash { max: 34 }])),
+                    ]),
+                    G::PermOnly(Box::new(G::RefNoDslash { max: 50 })),
+                    G::PermOnly(Box::new(seq(vec![
+                        G::RefNoDslash { max: 16 },
+                        lit("//"),
+                        G::RefNoDslash { max: 50 },
+                    ]))),
+                ]),
             ]),
         ),
         amdt("Field62F", "62F", "1!a6!n3!a15d", balance()),
